@@ -7,7 +7,6 @@ package c07
 
 import (
 	"fmt"
-	"os"
 	"strings"
 	"sync"
 	"testing"
@@ -621,5 +620,5 @@ func TestCheck(t *testing.T) {
 		r.NonTrivial(s3.String() + " held")
 	}
 	r.Count("fault_runs", nfault)
-	os.Exit(r.Finish(50))
+	h.Exit(r.Finish(50))
 }
